@@ -2,13 +2,15 @@ import os, subprocess
 
 META = dict(
     engine='seqx',
-    technique='exhaustive enumeration of event sequences x buffer-boundary placements: each case is written with the real profiling.c writer API into a fresh binary trace and read back with the real dbpreader.c; field-by-field comparison with a reference list of the events written',
-    level_text='Every sequence of 5 (quick) / 7 (thorough) events over {key A, key B} x {begin, end} x {stream 0, stream 1} is traced as a window of a de Bruijn stream (4-10 configurations of info lengths {0,4,24,+odd} x payload policy x API variant, many buffer alignments); every sequence of length <= 2 (quick) / <= 3 (thorough) is traced from a fresh trace, once into empty buffers and once for every (event i, d in {-1,0,+1}) with the stream pre-filled so that event i ends d bytes around the end of its buffer; plus uniform runs filling exactly k = 1..2 (quick) / 1..4 (thorough) buffers -1/0/+1 event (by count and to the byte), dictionaries of 4..52 entries x convertor lengths (all lengths 0..255 in thorough), and global-info values ending around 1..3 buffer ends. Each trace is written with the real profiling.c and read back through the real dbpreader.c (dbp_reader_open_files / iterators) and compared per stream, in order: key, flags, event_id, taskpool_id, timestamp (against a deterministic clock), payload length and bytes; dictionary names / info lengths / convertors / colours, global and per-stream infos, stream names, rank and trace id.',
-    level_note='Single writer thread (streams are per-thread objects by contract), one trace file per case (single process rank 0..4 read alone); info lengths {0,4,24} (+1 for filler events), buffer size 1 page (thorough: also 2 pages); user flags are a fixed function of the event position, not enumerated independently. profiling.c is compiled into the harness by #include so that its file-scope state can be reset between cases (the API cannot restart a trace in one process) and its clock replaced by a tick counter; a fork-per-case leg cross-checks the reset.',
+    technique='exhaustive enumeration of event sequences x buffer-boundary placements, and of multi-process traces (2-3 rank files with different dictionaries x argument orders, opened together and alone): each case is written with the real profiling.c writer API into fresh binary trace files and read back with the real dbpreader.c; field-by-field comparison with a reference list of the events written',
+    level_text='Every sequence of 5 (quick) / 7 (thorough) events over {key A, key B} x {begin, end} x {stream 0, stream 1} is traced as a window of a de Bruijn stream (4-10 configurations of info lengths {0,4,24,+odd} x payload policy x API variant, many buffer alignments); every sequence of length <= 2 (quick) / <= 3 (thorough) is traced from a fresh trace, once into empty buffers and once for every (event i, d in {-1,0,+1}) with the stream pre-filled so that event i ends d bytes around the end of its buffer; plus uniform runs filling exactly k = 1..2 (quick) / 1..4 (thorough) buffers -1/0/+1 event (by count and to the byte), dictionaries of 4..52 entries x convertor lengths (all lengths 0..255 in thorough), and global-info values ending around 1..3 buffer ends. Multi-process traces (leg multi): 2 and 3 rank files whose dictionaries differ - every registration order of the three keys on ranks 1, 2 relative to rank 0 x 0..2 extra keys that only one rank (or two of three) registers before / after / around the shared ones x the same or different info lengths for one key name on different ranks x every argument order of the files - are opened together with dbp_reader_open_files(n) and each alone; event programs: every sequence of length <= 1 (quick) / <= 2, and <= 3 without extra keys (thorough) from fresh traces, every sequence of 2 (quick) / 3 (thorough) events as a window of a de Bruijn stream, 5 programs crossing buffer boundaries; part of the cases with one forked fresh writer process per rank. Checked for every file of the joint reader: the events as written by that rank (key number and key NAME through the dictionary mapping of the file, flags, ids, timestamp, payload length and bytes), rank, dictionary entries; the merged dictionary holds every registered (name, info length, convertor) exactly once and the local-to-global translation of every file points at its own key. Each trace is written with the real profiling.c and read back through the real dbpreader.c (dbp_reader_open_files / iterators) and compared per stream, in order: key, flags, event_id, taskpool_id, timestamp (against a deterministic clock), payload length and bytes; dictionary names / info lengths / convertors / colours, global and per-stream infos, stream names, rank and trace id.',
+    level_note='Single writer thread per process (streams are per-thread objects by contract); one trace file per case except in leg multi (2-3 files; all files of a case share buffer size and trace id, as the reader requires; in quick only 36 of the 984 multi cases use forked writer processes, the others write the rank files one after the other in one process with the writer statics reset, and reuse a rank file between neighbouring cases of a worker); info lengths {0,4,24} (+1 for filler events), buffer size 1 page (thorough: also 2 pages); user flags are a fixed function of the event position, not enumerated independently. profiling.c is compiled into the harness by #include so that its file-scope state can be reset between cases (the API cannot restart a trace in one process) and its clock replaced by a tick counter; a fork-per-case leg cross-checks the reset.',
 )
 RULE = ("one execution = one trace written through the writer API and read back through the reader API; states/distinct outcomes = distinct file layouts "
         "(events per buffer per stream, number of dictionary/info buffers) found by an independent raw walk of the file; transitions = events written and compared; "
-        "a case is non-trivial when a stream spans >= 2 buffers or both streams carry events")
+        "a case is non-trivial when a stream spans >= 2 buffers or both streams carry events. Leg multi: one execution = one joint opening of n rank files "
+        "(each rank file also read alone once; trace_files_written = files actually written), outcome = file layouts + merged dictionary size + the local->global "
+        "dictionary map of every file, non-trivial = some file's map is not the identity")
 
 
 def build(ctx):
@@ -20,9 +22,9 @@ def check(ctx):
     exe = build(ctx)
     jobs = str(min(16, os.cpu_count() or 4))
     if ctx.tier == 'quick':
-        ctx.run_engine(exe, ['--outdir', '/verif/out', '--jobs', jobs, '--maxlen', '5', '--deadline', '55'], label='prof', timeout=300)
+        ctx.run_engine(exe, ['--outdir', '/verif/out', '--jobs', jobs, '--maxlen', '5', '--deadline', '70'], label='prof', timeout=300)
     else:
-        ctx.run_engine(exe, ['--outdir', '/verif/out', '--jobs', jobs, '--maxlen', '7', '--thorough', '--deadline', '1000'], label='prof', timeout=1500)
+        ctx.run_engine(exe, ['--outdir', '/verif/out', '--jobs', jobs, '--maxlen', '7', '--thorough', '--deadline', '1100'], label='prof', timeout=1700)
     return ctx.finish(RULE, ["events of one stream are traced by one thread at a time (documented contract of parsec_profiling_stream_t)",
                              "the trace is complete: parsec_profiling_dbp_dump / fini returned before the file is read"])
 
